@@ -223,7 +223,7 @@ func init() {
 			"header self-consistency: the info fork size and name length fields of the header are computed from the info fork that follows (cursor contract of flattenedFileObject.Read / FlatFileInformationFork.Read)",
 			"HandleDownloadFile: the only error reply is the privilege denial; field 108 is TransferSize(0) of the wrapper (bare data size for a preview), field 207 the wrapper's data size",
 		},
-		Undecided: []string{"content of the data fork stream = bytes on disk (os.File semantics, assumed)", "resume offset taken from the wire form of the resume data (FileResumeData.UnmarshalBinary not under contract)", "files of 4 GiB and more (32-bit size fields wrap)"},
+		Undecided:   []string{"content of the data fork stream = bytes on disk (os.File semantics, assumed)", "resume offset taken from the wire form of the resume data (FileResumeData.UnmarshalBinary not under contract)", "files of 4 GiB and more (32-bit size fields wrap)"},
 		Assumptions: []string{"a stored .info_<name> file is a well-formed info fork (NewFileWrapper's contract on the header invariant is assumed, its body reads the file)"},
 	}
 	plans["C10"] = &Plan{
@@ -261,7 +261,7 @@ func init() {
 			"TotalSize of a file without resource fork is its size on disk minus the wrapper's offset (mod 2^32)",
 			"HandleNewFolder creates the folder only when os.IsNotExist holds for the very path it creates; HandleSetFileInfo renames a file by moving the wrapper, carrying the base name of the resolved new path, within the file's own folder",
 		},
-		Undecided: []string{"agreement of list / get-info / download reply on type and creator codes (three call chains over file_types tables)", "sequences of operations against a reference namespace (whole-history)", "that every non-ignored entry is listed (the loop's skip conditions are not under an invariant)", "make-alias, set-comment"},
+		Undecided:   []string{"agreement of list / get-info / download reply on type and creator codes (three call chains over file_types tables)", "sequences of operations against a reference namespace (whole-history)", "that every non-ignored entry is listed (the loop's skip conditions are not under an invariant)", "make-alias, set-comment"},
 		Assumptions: []string{"a directory entry name is at most 255 bytes (NAME_MAX) and Mac-Roman encoding does not lengthen it (assumed contracts of os.DirEntry.Name and encoding.Encoder.String)"},
 	}
 	plans["C14"] = &Plan{
@@ -309,6 +309,7 @@ func init() {
 	}
 	plans["C01"] = &Plan{
 		Items: fnItems(nil,
+			"hotline.(*Transaction).Read", "hotline.(*Transaction).Size", "hotline.(*Transaction).Write", "hotline.(*FilePath).Write",
 			"hotline.(*Field).Read", "hotline.NewField", "hotline.(*Field).Write", "hotline.FieldScanner",
 			"hotline.transactionScanner", "hotline.(*Field).DecodeInt", "hotline.EncodeString",
 			"hotline.(*User).Read", "hotline.(*User).Write",
@@ -324,6 +325,7 @@ func init() {
 		Decided: []string{
 			"encoder Read methods: every call returns the next bytes of the wire layout (cursor contract), for every buffer size",
 			"decoders: fields equal the corresponding sub-ranges of the input",
+			"Transaction.Read serialises without consuming: it writes only its own cursor and the caller's buffer (the fields and their cursors are untouched, so a transaction can be read again, measured, or sent to several clients); the 22-byte header carries flags, type, ID, error code, the size twice and the field count; every field is drained through Field.Read whose precondition (length prefix = data length) is checked at the drain site",
 		},
 	}
 }
